@@ -463,6 +463,10 @@ func main() {
 	r.Assume("Range's callback returning false stops the enumeration (the only meaning its bool result has); All obeys the iter.Seq protocol")
 	r.Assume("an iterator is walked by Next; Value is a pure query of the current position and may be called any number of times, or not at all, between two Next calls; whether a panic raised by the receiving code of Range / All reaches the caller is not judged (only the values delivered before it and the state of the object afterwards)")
 	r.Cases("lockstep", r.N(50000, 1500000), ev.Opt{HangViolation: true}, lockstepCase)
+	// the same workload on parallel workers under the race detector: package-level state shared
+	// between instances that no goroutine shares is reported from the happens-before relation,
+	// whether or not the accesses collide in this run (and however loaded the machine is)
+	r.CasesProc("lockstep/race-parallel", r.N(800, 20000), ev.Opt{Bin: "race", Procs: 2, Workers: 8, AlwaysLog: true, HangViolation: true, MaxCaseSeconds: 120}, lockstepCase)
 	r.Cases("pairs", pairsCount(r), ev.Opt{HangViolation: true}, pairsCase)
 	r.Cases("words", r.N(14700, 735000), ev.Opt{HangViolation: true}, wordsCase)
 	r.Cases("iter", r.N(20000, 800000), ev.Opt{HangViolation: true}, iterCase)
